@@ -7,6 +7,7 @@ import re
 
 import sympy as sp
 
+from ..cfg import cfg_of
 from ..core import named_args, AnalysisError, call_name, const_value, dotted, unparse, walk_no_nested
 from ..report import Ctx
 from ..sym import ToSympy, equal
@@ -211,11 +212,35 @@ else:
             if isinstance(n, ast.For) and any(x in setters for x in ast.walk(n)):
                 reads |= set(re.findall(r'self\.data\.(\w*varCovar)', unparse(n)))
         own = {f'{fam}varCovar'}
-        if not ok and reads == own:
+        # reaching definitions: every local that enters the correlation of this family is computed from the matrix of this family
+        stale = None
+        cors = [a for a in walk_no_nested(cs.node) if isinstance(a, ast.Assign) and unparse(a.targets[0]) == f'self.data.{fam}correlation' and 'full_like' not in unparse(a.value)]
+        ccfg = cfg_of(cs.node)
+        for a in cors:
+            todo = [x for x in ast.walk(a.value) if isinstance(x, ast.Name)]
+            seen = set()
+            while todo and stale is None:
+                nm = todo.pop()
+                if (nm.id, id(nm)) in seen:
+                    continue
+                seen.add((nm.id, id(nm)))
+                at = ccfg.node_of(nm)
+                for d in (ccfg.reaching(at, nm.id) if at is not None else []):
+                    if d.kind != 'assign' or d.value is None:
+                        continue
+                    foreign = sorted({m_ for m_ in re.findall(r'self\.data\.(\w*?)varCovar', unparse(d.value)) if m_ != fam})
+                    if foreign:
+                        stale = f'{nm.id}, which enters self.data.{fam}correlation, can still hold `{unparse(d.value)}` (line {getattr(d.value, "lineno", "?")}): the {FAMNAME[fam]} correlations are normalised with the standard deviations of another family'
+                        break
+                    if len(seen) < 40:
+                        todo += [x for x in ast.walk(d.value) if isinstance(x, ast.Name)]
+        if stale:
+            ok = False
+        elif not ok and reads == own:
             ok = None  # the block reads its own matrix; only its spelling is not the one the rule knows
         ctx.add('C08.R2', f'_calculate_stats:{FAMNAME[fam]}', ok, (cs.file, line),
                 f'{FAMNAME[fam]} block: std err_i = sqrt(V_ii) and correlation = D^-1 V D^-1 of its own matrix' if ok
-                else (f'{FAMNAME[fam]} block is not the std-err / correlation block of its own matrix (matrices read: {sorted(reads)})' if ok is False
+                else ((stale or f'{FAMNAME[fam]} block is not the std-err / correlation block of its own matrix (matrices read: {sorted(reads)})') if ok is False
                       else f'shape not recognised - expected: std err_i = sqrt(V_ii) (max float when negative) for every parameter, correlation = D^-1 V D^-1, all from {sorted(own)[0]}'),
                 detail='' if ok else str(sorted(reads)), positive=ok is False)
     B = prog.cls('results', 'Beta')
